@@ -110,7 +110,33 @@ def positions():
         return (f"INSERT INTO {t} SELECT c1 FROM src1; INSERT INTO fin1 SELECT {t}.c1 FROM {t}",
                 [("path", ["<default>.src1.c1", ref + ".c1", "<default>.fin1.c1"]), ("intermediate_table", ref)])
 
-    extra = [("cte_name_as_qualifier", p_cte_qualifier, False), ("derived_alias_as_qualifier", p_derived_qualifier, False),
+    def p_star_qualifier(sp, n):
+        t, ref = table_name(["dbx", "scm", "tabx"][3 - n:], sp)
+        return f"INSERT INTO tgt1 SELECT {t}.* FROM {t}", [("pair", (ref + ".*", "<default>.tgt1.*")), ("source_table", ref)]
+
+    def p_partial_qualifier(sp, n):
+        # the qualifier names the table by a proper suffix of its dotted name (schema.table for db.schema.table, table for schema.table)
+        t, ref = table_name(["dbx", "scm", "tabx"][3 - n:], sp)
+        if n == 1:
+            return p_qualifier(sp, n)
+        suffix, _ = table_name(["dbx", "scm", "tabx"][3 - n + 1:], sp)
+        return f"INSERT INTO tgt1 SELECT {suffix}.c1 FROM {t}", [("pair", (ref + ".c1", "<default>.tgt1.c1")), ("only_source", ref)]
+
+    def p_partial_star_qualifier(sp, n):
+        t, ref = table_name(["dbx", "scm", "tabx"][3 - n:], sp)
+        if n == 1:
+            return p_star_qualifier(sp, n)
+        suffix, _ = table_name(["dbx", "scm", "tabx"][3 - n + 1:], sp)
+        return f"INSERT INTO tgt1 SELECT {suffix}.* FROM {t}", [("pair", (ref + ".*", "<default>.tgt1.*")), ("only_source", ref)]
+
+    def p_star_chain(sp, n):
+        t, ref = table_name(["dbx", "scm", "tabx"][3 - n:], sp)
+        return (f"INSERT INTO {t} SELECT * FROM src1; INSERT INTO fin1 SELECT {t}.* FROM {t}",
+                [("path", ["<default>.src1.*", ref + ".*", "<default>.fin1.*"]), ("intermediate_table", ref)])
+
+    extra = [("star_qualifier", p_star_qualifier, True), ("partial_qualifier", p_partial_qualifier, True),
+             ("partial_star_qualifier", p_partial_star_qualifier, True), ("star_chain_two_statements", p_star_chain, True),
+             ("cte_name_as_qualifier", p_cte_qualifier, False), ("derived_alias_as_qualifier", p_derived_qualifier, False),
              ("table_name_as_qualifier_across_statements", p_table_name_qualifier_chain, True)]
     return extra + [("from", p_from, True), ("target", p_target, True), ("column", p_column, False), ("qualifier", p_qualifier, True), ("alias", p_alias, False),
             ("insert_column_list", p_collist, False), ("chain_two_statements", p_chain, True), ("cte_name", p_cte, False)]
@@ -139,24 +165,33 @@ def evaluate(sql, dialect, checks):
     return None
 
 
+_cells_cache = {}
+
+
+def known_cells():
+    """K-quoted-case is identified exactly: the finding lists every failing (statement, dialect) cell of the positions stream together with the
+    hash of the discrepancy observed there on the pinned tree, so a *different* wrong answer in a listed cell, or a wrong answer in a cell that
+    is not listed, is a violation (the list is committed data, regenerated only by tools/c16_cells.py - never at run time)"""
+    if "cells" not in _cells_cache:
+        import json
+
+        data = json.load(open(os.path.join(runner.HOME, "known_findings.json")))
+        _cells_cache["cells"] = next((e.get("cells", {}) for e in data["findings"] if e["id"] == "K-quoted-case@C16"), {})
+    return _cells_cache["cells"]
+
+
+def cell_key(case):
+    return runner.h8(case["sql"] + "|" + case["dialect"])
+
+
 def classify(case, detail):
     """K-quoted-case: a quoted spelling with upper-case letters is lower-cased where normalisation is applied twice: source columns,
     schema (and database) parts of a table name"""
     sp = case.get("spelling") or [None, None]
     if sp[1] is None or sp[0] == "lower":
         return None
-    pos = case.get("position")
-    exp, rep = detail.get("expected"), detail.get("reported")
-
-    def lowered_variant(e):
-        return isinstance(e, str) and any(ch.isupper() for ch in e)
-
-    if pos in ("column", "chain_two_statements", "insert_column_list", "qualifier", "from", "target", "table_name_as_qualifier_across_statements") and detail.get("what") != "raises":
-        # symptom: the reported side contains the expected name with (part of) it lower-cased
-        flat = str(rep).lower()
-        e = exp if isinstance(exp, str) else str(exp)
-        if e.lower() in flat or all(x.lower() in flat for x in (exp if isinstance(exp, list) else [exp]) if isinstance(x, str)):
-            return "K-quoted-case@C16"
+    if known_cells().get(cell_key(case)) == runner.h8(detail):
+        return "K-quoted-case@C16"
     return None
 
 
